@@ -139,7 +139,7 @@ async def stored_answer(st, conc_filters, timeout=20):
     out = []
     err = None
     try:
-        await st.subscribe(cid, "q", [dict(f) for f in conc_filters], q)
+        await st.subscribe(cid, "q", [dict(f) if isinstance(f, dict) else f for f in conc_filters], q)
         while True:
             sub_id, ev = await asyncio.wait_for(q.get(), timeout)
             if ev is None:
@@ -223,11 +223,16 @@ async def run_script(st, backend, uni, script, log_errors=None):
                 ev = None
             found = ev is not None and uni.sym_event(ev) == op[1]
             lines.append({"a": "Get", "id": op[1], "found": bool(ev is not None), "_verbatim": found or ev is None})
-        elif kind in ("query", "squery"):
+        elif kind in ("query", "squery", "rawquery"):
             fs = op[1]
-            conc = [uni.conc_filter(f) for f in fs]
+            if kind == "rawquery":
+                # concrete (possibly malformed) filters given verbatim, with the abstract filters that bound the answer
+                conc, fs = op[1], op[2]
+                kind = "query"
+            else:
+                conc = [uni.conc_filter(f) for f in fs]
             if kind == "query":
-                evs, err = await stored_answer(st, conc)
+                evs, err = await stored_answer(st, _clone(conc))
             else:
                 evs, err = [], None
                 try:
@@ -239,7 +244,8 @@ async def run_script(st, backend, uni, script, log_errors=None):
             for e in evs:
                 s = uni.sym_event(e)
                 res.append(s if s is not None else "?" + str(getattr(e, "id", e))[:16])
-            lines.append({"a": "Query", "fs": fs, "res": res, "_err": err, "_path": kind})
+            lines.append({"a": "Query", "fs": fs, "res": res, "_err": err, "_path": kind, "_raw": op[0] == "rawquery",
+                          "_conc": conc if op[0] == "rawquery" else None})
         else:
             raise ValueError(op)
     return lines
